@@ -378,7 +378,7 @@ def psnr(deltas, max_value):
     if mean_square_error == 0:
         return None
     else:
-        return (20 * (np.log(max_value) / np.log(10))) - (
+        return (20 * (np.log(float(max_value)) / np.log(10))) - (
             10 * (np.log(mean_square_error) / np.log(10))
         )
 
